@@ -65,6 +65,9 @@ func needles() []string {
 // code recovered (and only logged) a panic during begin/end-block processing.
 var blocksWithRecovered int
 
+// quickHorizon bounds field-deviation executions of the quick tier (set in run).
+var quickHorizon bool
+
 func recoveredHits() []string {
 	var hits []string
 	for _, h := range *capLog.Hits {
@@ -122,12 +125,17 @@ func execute(d *dev) (run *hist.Run, blocks int, applied int) {
 			return txs
 		}
 	}
+	if d != nil && d.Gov == "" && d.Mode == "first-block" && quickHorizon {
+		// quick tier: a bounded horizon after the hostile value entered the chain (the block classes
+		// 10, 50 and 100 are always reached; the thorough tier runs every execution to the end)
+		h.Stop = func(i int) bool { return first >= 0 && i > max(first+100, 125) }
+	}
 	out, run := hist.ExecuteWith(h, func(c *world.Config) { c.Logger = capLog })
 	return run, len(out), applied
 }
 
 func run(r *report.Run, shard, nshards int, replayFile string) {
-	r.Rule = "the 362-block scripted history (heights up to 363: classes 10, 50, 100, 300, 303, 350) re-executed once per (message type, field, hostile value, mode) through InitChain/FinalizeBlock/Commit; message types and fields are discovered by reflection over the transactions of the baseline run; a state = one (deviation, block) pair"
+	r.Rule = "the 362-block scripted history (heights up to 363: classes 10, 50, 100, 300, 303, 350) re-executed once per (message type, field, hostile value, mode) through InitChain/FinalizeBlock/Commit; message types and fields are discovered by reflection over the transactions of the baseline run; a state = one (deviation, block) pair; quick tier: a field-deviation execution ends 100 blocks after the hostile value entered the chain (never before block 125, so the block classes 10, 50 and 100 are reached), the thorough tier runs every execution to the end of the history"
 	r.Assumptions = []string{
 		"deviation bound 1: one field of one message type is hostile per execution (all transactions of that type in the first block where it occurs, or all occurrences)",
 		"only message types occurring in the scripted history are mutated; the version gate of CheckChainVersion is not in the alphabet",
@@ -229,6 +237,7 @@ func run(r *report.Run, shard, nshards int, replayFile string) {
 		r.Extra["governance_value_deviations"] = float64(len(govMenu()))
 	}
 	deadline := r.Deadline(170*time.Second, 27*time.Minute)
+	quickHorizon = !r.Thorough()
 	outcomes := map[string]int{}
 	for i, d := range devs {
 		if i%nshards != shard {
@@ -274,7 +283,7 @@ func judge(r *report.Run, d dev, run *hist.Run, blocks int) {
 		r.Violate("abort:"+d.MsgType+"."+d.Field, fmt.Sprintf("hostile %s=%s (%s) makes block processing panic at height %d: %s", d.Field, d.Value, d.Mode, run.PanicAt, p), d)
 		return
 	}
-	if blocks < run.Script.Blocks() {
+	if blocks < run.Script.Blocks() && !run.Stopped {
 		r.Violate("abort-error:"+d.MsgType+"."+d.Field, fmt.Sprintf("hostile %s=%s: FinalizeBlock returned an error after %d blocks", d.Field, d.Value, blocks), d)
 		return
 	}
